@@ -46,5 +46,9 @@ def call_fn(module, func, args, kwargs=None):
 
 def enc(a):
     if isinstance(a, np.ndarray):
-        return {"__arr__": a.tolist()}
+        return {"__arr__": a.tolist(), "dtype": "int64" if np.issubdtype(a.dtype, np.integer) else "float64"}
+    if isinstance(a, (np.integer,)):
+        return int(a)
+    if isinstance(a, (np.floating,)):
+        return float(a)
     return a
